@@ -204,6 +204,8 @@ class StackNode:
         self.rx_state = None
         self.rx_busy = False
         self.reentrant_depth = 0
+        self.isolated = False
+        self.isolated_sent = []
         self.send_calls = 0
         self.fail_sends = set()     # 1-based numbers of the send calls the backend refuses with can.CanError
         self.send_failures = 0
@@ -257,6 +259,10 @@ class StackNode:
 
     # send backend handed to the ECU: same can.Message construction as the real send_message
     def _send(self, can_id, extended_id, data, fd_format=False):
+        if self.isolated:
+            # not connected to the bus (bystander): whatever it tries to send is recorded, nothing is delivered
+            self.isolated_sent.append((self.bus.sim.now, can_id, bytes(data)))
+            return
         self.send_calls += 1
         if self.send_calls in self.fail_sends or (self.fail_pred is not None and self.fail_pred(can_id, data)):
             # fault injection: the driver refuses the frame (nothing reaches the bus)
